@@ -148,8 +148,9 @@ pub fn profile(prop: Prop, thorough: bool) -> Profile {
             p.cancel = true;
         }
         Prop::C08 => {
-            p.weights = cat(&[&scale(MAP_BASIC, 1, 2), &scale(HANDLES, 1, 4), &scale(MOVERS, 1, 1), &[(G::IterCheck, 30), (G::Drain, 8), (G::IntoIter, 6), (G::SIterCheck, 10), (G::SDrain, 4), (G::SIntoIter, 3), (G::SInsert, 20), (G::SRemove, 8), (G::SRetain, 2), (G::SReserve, 2)]]);
-            p.sets = 1;
+            p.weights = cat(&[&scale(MAP_BASIC, 1, 2), &scale(HANDLES, 1, 4), &scale(MOVERS, 1, 1), &[(G::IterCheck, 30), (G::Drain, 8), (G::IntoIter, 6), (G::SIterCheck, 10), (G::SDrain, 4), (G::SIntoIter, 3), (G::SInsert, 20), (G::SRemove, 8), (G::SRetain, 2), (G::SReserve, 2), (G::CloneFrom, 3), (G::CloneTo, 2), (G::SCloneFrom, 2), (G::SCloneTo, 1)]]);
+            p.maps = 2;
+            p.sets = 2;
             p.forget = true;
         }
         Prop::C09 => {
@@ -182,8 +183,9 @@ pub fn profile(prop: Prop, thorough: bool) -> Profile {
             p.keep_pct = 85;
         }
         Prop::C11 => {
-            p.weights = cat(&[MAP_BASIC, &scale(HANDLES, 1, 2), MOVERS, &[(G::CloneTo, 12), (G::CloneFrom, 14), (G::EqCheck, 8)]]);
+            p.weights = cat(&[MAP_BASIC, &scale(HANDLES, 1, 2), MOVERS, &scale(SET_BASIC, 1, 3), &[(G::CloneTo, 12), (G::CloneFrom, 14), (G::EqCheck, 8), (G::SCloneTo, 5), (G::SCloneFrom, 7), (G::SAlgebra, 3), (G::SClear, 2), (G::SDrain, 1)]]);
             p.maps = 3;
+            p.sets = 2;
             p.elem = [4, 6, 1];
         }
         Prop::C12 => {
@@ -220,7 +222,7 @@ pub fn owns(prop: Prop, a: &Anomaly) -> bool {
         Prop::C08 => c == "iter-mismatch" || (semantic && fam == Family::Iter),
         Prop::C09 => c == "partition-mismatch" || (semantic && fam == Family::Lazy),
         Prop::C10 => c == "capacity-contract" || (semantic && fam == Family::Capacity) || matches!(c, "probe-alloc" | "probe-panic"),
-        Prop::C11 => matches!(c, "clone-changed-source" | "clone-left-split" | "cross-contents-mismatch") || (semantic && fam == Family::CloneOp) || c == "eq-mismatch",
+        Prop::C11 => matches!(c, "clone-changed-source" | "clone-left-split" | "cross-contents-mismatch") || (semantic && fam == Family::CloneOp) || c == "eq-mismatch" || (semantic && a.op_kind == "set_algebra"),
         Prop::C12 => semantic && fam == Family::Handle,
         Prop::C13 => (semantic || c == "iter-mismatch" || c == "partition-mismatch") && is_set_op(a),
         Prop::C17 => c == "unexpected-panic",
